@@ -596,3 +596,15 @@ CHECKS['C11'].update(text=CHECKS['C11']['text'] + ' GR2 (sentinel-terminated res
 CHECKS['C17'].update(text=CHECKS['C17']['text'] + ' CU4 treats a loop flag handed to a helper by address as unknown after that call (it is still known '
                      'at the loop entry).')
 CHECKS['C19'].update(text=CHECKS['C19']['text'] + ' W1 evaluates index-form scans (str[i] through a helper predicate) like cursor-form scans.')
+
+# ---- wave-18 extensions -------------------------------------------------------------------------------------------------------
+CHECKS['C01'].update(text=CHECKS['C01']['text'] + ' T6\'s decision table is evaluated with C integer semantics (arithmetic and integral conversions '
+                     'reduced to the width and signedness of their type, so an unsigned length difference wraps). G1: qtreetbl.c writes no '
+                     'file-scope or function-static variable that it also reads - results depend on the table passed in only (the write-only '
+                     'rotation counters are accepted and listed).')
+CHECKS['C05'].update(text=CHECKS['C05']['text'] + ' M5: a value buffer is never resized with realloc(p, 0) read as failure (the empty value is a legal '
+                     'value). G1: no read-and-written static state in qhashtbl.c.')
+CHECKS['C13'].update(text=CHECKS['C13']['text'] + ' G1: none of the nine container units reads and writes a file-scope or function-static variable: such '
+                     'state is shared by all containers and threads and no container lock protects it.')
+CHECKS['C11'].update(text=CHECKS['C11']['text'] + ' M2 follows a local loaded from an owned field (directly or as an arm of ?:): free(local) releases '
+                     'that field, so an exit that leaves the node linked with the field dangling is reported.')
